@@ -596,3 +596,6 @@ def run(ck):
     prog_xz = common.program(ck, ("xz",), files=("/coder.c",))
     check_xz_magic(ck, prog, prog_xz)
     ck.floor("C16-XZ", 4)
+    # "concatenation rules hold": xz accepts a .lzma / raw stream only when nothing follows it (rule shared with C17)
+    from . import C17
+    C17.check_fail(ck, prog_xz)
